@@ -90,7 +90,10 @@ def pair_case(draw):
     if draw(st.booleans()):
         warm_up = {"positions": [[draw(gen.floats(0.0, math.nextafter(L, 0.0))) for _ in range(3)] for _ in range(2)],
                    "charges": [draw(st.sampled_from([1.0, -1.0, 0.41])), draw(st.sampled_from([1.0, -1.0, -0.82]))]}
-    return {"L": L, "direction": d, "positions": pos, "warm_up": warm_up,
+    # the handler instance that treats the pair may be a copy: taggers deep-copy their prototype, a resumed run works
+    # with what dill restored from the dump
+    restored = draw(st.sampled_from([None, None, None, "deepcopy", "dill", "dill"]))
+    return {"L": L, "direction": d, "positions": pos, "warm_up": warm_up, "restored": restored,
             "charges": [draw(st.sampled_from([1.0, -1.0, 2.0])), draw(st.sampled_from([1.0, -1.0, 0.5]))],
             "active": draw(st.integers(0, 1)), "speed": draw(st.sampled_from([1.0, 0.5, 2.0])),
             "ts": [float(draw(st.integers(0, 50))), draw(gen.floats(0.0, 0.999))],
@@ -123,6 +126,12 @@ def body_pair(rec, **c):
     from jellyfysh.potential.merged_image_coulomb_potential import MergedImageCoulombPotential
     handler = mod_h.TwoLeafUnitBoundingPotentialEventHandler(
         potential=MergedImageCoulombPotential(), bounding_potential=InversePowerCoulombBoundingPotential(), charge="q")
+    if c.get("restored") == "deepcopy":
+        import copy
+        handler = copy.deepcopy(handler)
+    elif c.get("restored") == "dill":
+        import dill
+        handler = dill.loads(dill.dumps(handler))
     v = [0.0, 0.0, 0.0]
     v[c["direction"]] = c["speed"]
     # The tag activator keeps a pool of handler instances and hands each of them whatever pair comes next: before the
@@ -195,7 +204,7 @@ def body_pair(rec, **c):
             rec.fail("acceptance/unconfirmed-changes-state", "unconfirmed event changed velocities/time stamps: %r -> %r"
                      % (b, a), dict(c, u=u))
     nt = 0.0 < threshold < 1.0
-    rec.case("pair/%s%s" % ("interior" if nt else ("zero" if threshold <= 0 else "one"), "/reused-handler" if warm else ""),
+    rec.case("pair/%s%s" % ("interior" if nt else ("zero" if threshold <= 0 else "one"), ("/reused-handler" if warm else "") + ("/%s-copy" % c["restored"] if c.get("restored") else "")),
              (repr(sorted(c.items())),), nt,
              {"case": c, "threshold": threshold, "q_true": q_true, "q_bound": q_bound})
 
